@@ -119,6 +119,7 @@ def gen(seed, run, tier='quick'):
     for k in range(n_conv):
         convs.append({'base': rng.randrange(n_cur),
                       'clock': rng.choice(['callable', 'default']),
+                      'clock0': rng.choice(pool).isoformat(),
                       'kind': rng.choice(['none', 'year', 'month', 'month',
                                           'day', 'day'])})
     w = {'update': rng.choice([3, 5, 8]), 'get': rng.choice([2, 4]),
@@ -206,12 +207,13 @@ def gen(seed, run, tier='quick'):
                 ops.append(['call', ci, a, b, d,
                             f"{rng.randrange(1, 10 ** 7)}/100"])
         elif k == 'clock':
-            ops.append(['clock', some_date().isoformat()])
+            ops.append(['clock', some_date().isoformat(),
+                        rng.randrange(8)])
         elif k == 'tick':
             # the clock moves while the next default-date lookup runs
             a, b = rng.sample(range(n_cur), 2)
             ops.append(['tick', rng.choice([1, 1, 2, 3]),
-                        some_date().isoformat()])
+                        some_date().isoformat(), ci])
             ops.append(['get', ci, a, b, None])
     probe_dates = sorted({d.isoformat()
                           for d in rng.sample(pool, min(5, len(pool)))}
@@ -340,8 +342,14 @@ def execute(h):
 
     kf = KnownFindings()
     cfg, ops = h['cfg'], h['ops']
-    clock = world.SimClock(dt.date.fromisoformat(cfg['clock0']))
-    world.install_date_shim(clock)
+    # every clock is a SimClock: the system date (date.today, through the
+    # shim) and one private clock per converter that is configured with a
+    # callable; they show different dates, so a lookup that asks the wrong
+    # clock is visible
+    sysclock = world.SimClock(dt.date.fromisoformat(cfg['clock0']))
+    world.install_date_shim(sysclock)
+    clocks = [sysclock]
+    cclk = []
 
     curs = []
     for c in cfg['curs']:
@@ -354,8 +362,13 @@ def execute(h):
     for c in cfg['convs']:
         base = curs[c['base'] % n_cur]
         if c['clock'] == 'callable':
-            convs.append(MoneyConverter(base, get_dflt_effective_date=clock))
+            own = world.SimClock(dt.date.fromisoformat(
+                c.get('clock0', cfg['clock0'])))
+            clocks.append(own)
+            cclk.append(own)
+            convs.append(MoneyConverter(base, get_dflt_effective_date=own))
         else:
+            cclk.append(sysclock)
             convs.append(MoneyConverter(base))
         models.append(RefRates())
     probe_dates = [dt.date.fromisoformat(s) for s in cfg['probe_dates']]
@@ -506,6 +519,7 @@ def execute(h):
         a, b = op[2] % n_cur, op[3] % n_cur
         d = None if op[4] is None else dt.date.fromisoformat(op[4])
         conv = convs[ci]
+        clock = cclk[ci]
         clock.reset_trace()
         today0 = clock.today
         if op[0] == 'get':
@@ -580,8 +594,15 @@ def execute(h):
                         bump(probes, 'currency_given_by_symbol')
                     lib_specs.append((cobj, mk_amount(amt), mk_um(um)))
                 must_accept = model.update(op[2], specs)
+                # rate_specs is documented as an Iterable: hand it over as
+                # list, tuple, iterator or generator
+                form = (len(op[3]) + len(str(op[2])) + i) % 4
+                container = [lib_specs, tuple(lib_specs), iter(lib_specs),
+                             (s for s in lib_specs)][form]
+                if form >= 2:
+                    bump(probes, 'rate_specs_as_one_shot_iterable')
                 o = observe(lambda: ('ok', convs[ci].update(
-                    mk_validity(op[2]), lib_specs)))
+                    mk_validity(op[2]), container)))
                 accepted = o[0] == 'ok'
                 if pv is None:
                     bump(faults, 'invalid_validity')
@@ -601,6 +622,7 @@ def execute(h):
             elif kind in ('get', 'call'):
                 out = do_lookup(i, op)
             elif kind == 'clock':
+                clock = clocks[(op[2] if len(op) > 2 else 0) % len(clocks)]
                 d = dt.date.fromisoformat(op[1])
                 delta = (d - clock.today).days
                 sim_days[0] += abs(delta)
@@ -611,6 +633,7 @@ def execute(h):
                 clock.set(d)
                 out = 'set'
             elif kind == 'tick':
+                clock = cclk[(op[3] if len(op) > 3 else 0) % len(convs)]
                 d = dt.date.fromisoformat(op[2])
                 sim_days[0] += abs((d - clock.today).days)
                 clock.arm(op[1] - 1, d)
